@@ -100,13 +100,7 @@ Qed.
 Definition chunk_p (t : Z) (lo hi : expr) : list stmt :=
   [SDo i_ lo hi (ELit t) [SAssign a_ [EVar i_] (EBin Add (EIdx a_ [EVar i_]) (ELit 1))]].
 
-(* step 2, chunk size 3: visits 1,3,4,6,7 instead of 1,3,5,7 *)
-Theorem chunk_refuted_step : exists p path p',
-  chunk_apply 3 20%nat 21%nat path p = Some p' /\ ~ sim [i_; 20%nat; 21%nat] p p'.
-Proof.
-  exists (chunk_p 2 (ELit 1) (EVar n_)), [0%nat]. eexists.
-  refute 80%nat (store_of [sc n_ 7] []) (a_, [4]).
-Qed.
+(* (step 2 / chunk size 3 and the loop variable in its own bound are refused since the fix commits on /repo) *)
 
 (* negative step: inner bound out_var - (chunksize + 1): chunks overlap *)
 Theorem chunk_refuted_neg : exists p path p',
@@ -114,14 +108,6 @@ Theorem chunk_refuted_neg : exists p path p',
 Proof.
   exists (chunk_p (-1) (EVar n_) (ELit 1)), [0%nat]. eexists.
   refute 80%nat (store_of [sc n_ 6] []) (a_, [4]).
-Qed.
-
-(* the loop variable in its own stop expression is re-evaluated for every chunk *)
-Theorem chunk_refuted_loopvar_bound : exists p path p',
-  chunk_apply 2 20%nat 21%nat path p = Some p' /\ ~ sim [i_; 20%nat; 21%nat] p p'.
-Proof.
-  exists (chunk_p 1 (ELit 1) (EBin Add (EVar i_) (ELit 1))), [0%nat]. eexists.
-  refute 80%nat (store_of [sc i_ 4] []) (a_, [6]).
 Qed.
 
 (* ---- LoopTiling2DTrans ---- *)
